@@ -62,6 +62,7 @@ type sessionUplinkGeneric struct {
 	csid          uint64
 	clientName    string
 	natConn       *net.UDPConn
+	natConnState  *atomic.Pointer[net.UDPConn]
 	natConnSendCh <-chan *sessionQueuedPacket
 	natConnPacker zerocopy.ClientPacker
 	natTimeout    time.Duration
@@ -437,6 +438,7 @@ func (s *UDPSessionRelay) recvFromServerConnGeneric(ctx context.Context, lnc *ud
 						csid:          csid,
 						clientName:    clientInfo.Name,
 						natConn:       natConn,
+						natConnState:  &entry.state,
 						natConnSendCh: natConnSendCh,
 						natConnPacker: clientSession.Packer,
 						natTimeout:    lnc.natTimeout,
@@ -547,6 +549,14 @@ func (s *UDPSessionRelay) relayServerConnToNatConnGeneric(ctx context.Context, u
 				zap.Duration("natTimeout", uplink.natTimeout),
 				zap.Error(err),
 			)
+		}
+
+		// Stop may have just set an immediate deadline to end this session.
+		// Do not let an in-flight packet keep the session alive until the NAT timeout.
+		if uplink.natConnState.Load() != uplink.natConn {
+			if err := uplink.natConn.SetReadDeadline(conn.ALongTimeAgo); err != nil {
+				uplink.logger.Error("Failed to set read deadline on natConn", zap.Error(err))
+			}
 		}
 
 		s.putQueuedPacket(queuedPacket)
